@@ -91,7 +91,11 @@ def bodyStartTag (r : Rec) (t : Token) (name : Str) (attrs : List (Str × Str)) 
       | some b => detach b                                      -- 1. remove the second element from its parent
       | none => pure ()
       -- 2. pop all the nodes from the bottom of the stack, up to but not including the root html
-      modify fun s => { s with stack := s.stack.drop (s.stack.length - 1) }
+      if s.dev.nameOnly then
+        -- NON-STANDARD (Dev): "while the current node is not NAMED html, pop"
+        clearStackBackTo ["html"]
+      else
+        modify fun s => { s with stack := s.stack.drop (s.stack.length - 1) }
       let _ ← insertHtmlElement name attrs                      -- 3
       setMode .inFrameset                                       -- 4
   else if oneOf (strs ["address", "article", "aside", "blockquote", "center", "details", "dialog",
